@@ -61,6 +61,54 @@ def _nondeg_draws(res):
     return out
 
 
+def _all_draws(res):
+    out = []
+    for d in res.draws:
+        if d["p"] is None:
+            continue
+        p = np.real(np.asarray(d["p"], dtype=np.complex128))
+        if not np.all(np.isfinite(p)) or p.sum() <= 0:
+            out.append(None)
+        else:
+            out.append(p / p.sum())
+    return out
+
+
+def _near_point_mass(p):
+    # a draw that a legitimate contraction (weights below the library's 1e-6 purity cut) or a
+    # label-level short cut may add or remove
+    return p is not None and p.max() > 1 - 3e-5
+
+
+def _same(x, y, tol=1e-5):
+    if x is None or y is None:
+        return x is None and y is None
+    if len(x) != len(y):
+        n = max(len(x), len(y))  # cut-offs may differ between twins: pad with zeros
+        x = np.pad(x, (0, n - len(x)))
+        y = np.pad(y, (0, n - len(y)))
+    return float(np.max(np.abs(x - y))) <= tol
+
+
+def _compare_draw_lists(pa, pb):
+    """Sequence alignment of the probability vectors seen at the sampler; near point masses may be
+    present in one twin only."""
+    i = j = 0
+    while i < len(pa) or j < len(pb):
+        a = pa[i] if i < len(pa) else None
+        b = pb[j] if j < len(pb) else None
+        if i < len(pa) and j < len(pb) and _same(a, b):
+            i += 1
+            j += 1
+        elif i < len(pa) and _near_point_mass(a):
+            i += 1
+        elif j < len(pb) and _near_point_mass(b):
+            j += 1
+        else:
+            return f"{None if a is None else np.round(a, 8).tolist()} vs {None if b is None else np.round(b, 8).tolist()} (draw {i}/{j})"
+    return None
+
+
 def _status(res):
     return res.status if res.status != "raised" else "raised"
 
@@ -116,18 +164,9 @@ def compare_traces(ra, rb, props, oracle, world_a, client=None, compare_draws=Tr
             if r["do"] in ("measure", "povm") and da != db:
                 return Violation(props, oracle, "twin-outcomes", cell, f"sid {sid}: {da} vs {db}"), sid
         if compare_draws:
-            pa, pb = _nondeg_draws(res_a), _nondeg_draws(res_b)
-            if len(pa) != len(pb):
-                return Violation(props, oracle, "twin-draw-count", cell, f"sid {sid}: {len(pa)} vs {len(pb)} non-degenerate draws"), sid
-            for x, y in zip(pa, pb):
-                if x is not None and y is not None and len(x) != len(y):
-                    n = max(len(x), len(y))  # cutoffs may differ between twins: pad with zeros
-                    x = np.pad(x, (0, n - len(x)))
-                    y = np.pad(y, (0, n - len(y)))
-                if x is None and y is None:
-                    continue  # the same non-distribution in both twins (reported by C04, not a divergence)
-                if x is None or y is None or np.max(np.abs(x - y)) > 1e-6:
-                    return Violation(props, oracle, "twin-probabilities", cell, f"sid {sid}: {x} vs {y}"), sid
+            bad = _compare_draw_lists(_all_draws(res_a), _all_draws(res_b))
+            if bad is not None:
+                return Violation(props, oracle, "twin-probabilities", cell, f"sid {sid}: {bad}"), sid
         d = snapshot_diff(post_a, post_b, client=client, tol=tol)
         if d is not None:
             return Violation(props, oracle, "twin-state", cell, f"sid {sid}: {d}"), sid
@@ -151,10 +190,26 @@ def c08_twins(cfg, recipes):
     """Run the schedule with contraction on / off / as recorded (toggled)."""
     base = strip_contraction(recipes)
     runs = {}
+    follow = None
     for name, (contr, rec) in {"on": (True, base), "off": (False, base), "toggled": (cfg.get("contraction", True), recipes)}.items():
         c = dict(cfg)
         c["contraction"] = contr
+        if follow is not None:
+            c["follow"] = {sid: [dict(x) for x in lst] for sid, lst in follow.items()}
         runs[name] = runner.execute_run(c, recipes=copy.deepcopy(rec), keep_snapshots=True, stop_on_taint=True)
+        if follow is None:
+            # the first twin leads: the others take its outcome at the matching draw
+            follow = {}
+            for (pre, post, res), r in zip(runs[name].snapshots, runs[name].recipes):
+                lst = []
+                for d in res.draws:
+                    pp = None
+                    if d["p"] is not None:
+                        q = np.real(np.asarray(d["p"], dtype=np.complex128))
+                        if np.all(np.isfinite(q)) and q.sum() > 0:
+                            pp = q / q.sum()
+                    lst.append({"n": d["n"], "p": pp, "idx": d["idx"]})
+                follow[r["sid"]] = lst
     return runs
 
 
